@@ -81,3 +81,7 @@ Lemma copy_flush_shape_known : CopyFlushShapeFound = true.
 Proof. reflexivity. Qed.
 Lemma release_slot_shape_known : ReleaseSlotShapeFound = true.
 Proof. reflexivity. Qed.
+
+(* round 10: the read loops of ReadExact / ReadExactZeroCopy were found and classified *)
+Lemma read_loop_shape_known : ReadLoopShapeFound = true.
+Proof. reflexivity. Qed.
